@@ -264,6 +264,16 @@ def check(run):
              ('free-param-lower-via-const', 'const int[0,3] fp', 'const int lo = fp; int ctx_a[int[lo,5]];', 'system T;', True), ('free-param-upper-via-const', 'const int[0,3] fp', 'const int hi = fp; int ctx_a[int[0,hi]];', 'system T;', True),
              ('free-param-second-dim', 'const int[0,3] fp', 'int ctx_a[2][fp + 1];', 'system T;', True), ('free-param-typedef-lower', 'const int[0,3] fp', 'typedef int[fp,5] R; int ctx_a[R];', 'system T;', True),
              ('free-param-index-plain', 'const int[0,3] fp', 'int ctx_a[int[1,5]]; int ctx_v = fp;', 'system T;', False),
+             # arrays declared inside the body of a function of the template (locals of the function, of a nested block, of a loop body), sized by the parameter
+             # directly, through a template constant and through a partial instantiation; bound parameters and parameter-free sizes stay accepted
+             ('free-param-function-local', 'const int[1,3] fp', 'int ctx_v; void fl() { int a[fp]; a[0] = 1; ctx_v = a[0]; }', 'system T;', True),
+             ('free-param-function-block', 'const int[1,3] fp', 'int ctx_v; void fl() { if (ctx_v > 0) { int a[2][fp]; ctx_v = a[0][0]; } }', 'system T;', True),
+             ('free-param-function-loop', 'const int[1,3] fp', 'int ctx_v; void fl() { for (i : int[0,1]) { int a[int[0,fp]]; ctx_v = a[0]; } }', 'system T;', True),
+             ('free-param-function-via-const', 'const int[1,3] fp', 'const int cc = fp + 1; int ctx_v; int fl() { int a[cc]; return a[0]; }', 'system T;', True),
+             ('free-param-function-partial', 'const int a, const int[1,3] fp', 'int ctx_v; void fl() { int b[fp]; ctx_v = b[0]; }', 'Q(const int[1,2] z) = T(1, z + 1); system Q;', True),
+             ('free-param-function-parameter', 'const int[1,3] fp', 'int ctx_v; void fl(int a[fp]) { ctx_v = a[0]; }', 'system T;', True),
+             ('bound-param-function-local', 'const int[1,3] fp', 'int ctx_v; void fl() { int a[fp]; ctx_v = a[0]; }', 'P = T(2); system P;', False),
+             ('free-param-function-plain', 'const int[1,3] fp', 'int ctx_v; void fl() { int a[3]; a[0] = fp; ctx_v = a[0]; }', 'system T;', False),
              # the restriction must survive chains of partial instantiations of any depth, and vanish once the chain is closed
              ('partial-chain2-array', 'const int[1,3] fp', 'int ctx_a[fp];', 'Q(const int[1,3] m) = T(m); R(const int[1,3] k) = Q(k); system R;', True),
              ('partial-chain2-offset', 'const int[1,4] fp', 'int ctx_a[fp];', 'Q(const int[1,3] m) = T(m + 1); R(const int[1,2] k) = Q(k + 1); system R;', True),
